@@ -54,23 +54,23 @@ Proof.
 Qed.
 
 Lemma ok_hist_fixed : forall k, ok_hist all_fixed k = true.
-Proof. intro k. apply (hist_ok_all_spec all_fixed (fun _ => true)); [vm_compute; reflexivity | reflexivity]. Qed.
+Proof. intro k. apply (hist_ok_all_spec all_fixed (fun _ => true)); [vm_cast_no_check (eq_refl true) | reflexivity]. Qed.
 
 Lemma ok_hist_faithful : forall k, crop_merged k = false -> ok_hist faithful k = true.
 Proof.
-  intros k H. apply (hist_ok_all_spec faithful (fun k => negb (crop_merged k))); [vm_compute; reflexivity|].
+  intros k H. apply (hist_ok_all_spec faithful (fun k => negb (crop_merged k))); [vm_cast_no_check (eq_refl true)|].
   rewrite H. reflexivity.
 Qed.
 
 Lemma ok_probe_fixed : forall k, is_selfc k = true -> getter k = false -> ok_probe all_fixed [k] = true.
 Proof.
-  intros k H G. apply (probe_ok_all_spec all_fixed (fun k => is_selfc k && negb (getter k))); [vm_compute; reflexivity|].
+  intros k H G. apply (probe_ok_all_spec all_fixed (fun k => is_selfc k && negb (getter k))); [vm_cast_no_check (eq_refl true)|].
   rewrite H, G. reflexivity.
 Qed.
 
 Lemma ok_probe_faithful : forall k, is_selfc k = true -> plain_probe k = true -> ok_probe faithful [k] = true.
 Proof.
-  intros k H G. apply (probe_ok_all_spec faithful (fun k => is_selfc k && plain_probe k)); [vm_compute; reflexivity|].
+  intros k H G. apply (probe_ok_all_spec faithful (fun k => is_selfc k && plain_probe k)); [vm_cast_no_check (eq_refl true)|].
   rewrite H, G. reflexivity.
 Qed.
 
@@ -107,7 +107,7 @@ Lemma f5_fixed : skip_ignores_stale_cconvert = true -> forall k, ok_hist faithfu
 Proof.
   intros H k.
   first [ solve [vm_compute in H; discriminate H]
-        | apply (hist_ok_all_spec faithful (fun _ => true)); [vm_compute; reflexivity | reflexivity] ].
+        | apply (hist_ok_all_spec faithful (fun _ => true)); [vm_cast_no_check (eq_refl true) | reflexivity] ].
 Qed.
 
 (* F9: header of an image with an ICC profile, then header of an image without one, then
@@ -238,4 +238,4 @@ Lemma tj3set_table_boundaries :
   forallb (fun t => forallb (fun ic => forallb (fun id =>
      forallb (fun v => set_result_ok t ic id v) [p_lo t - 1; p_lo t; p_lo t + 1; p_hi t - 1; p_hi t; p_hi t + 1; -1; 0; 1; 2147483647])
      [true; false]) [true; false]) tj3set_table = true.
-Proof. vm_compute. reflexivity. Qed.
+Proof. vm_cast_no_check (eq_refl true). Qed.
